@@ -139,13 +139,13 @@ void Avtp_Vss_GetVssPath(Avtp_Vss_t* pdu, VssPath_t* val) {
     }
 }
 
-uint16_t Avtp_Vss_CalcVssPathLength(Avtp_Vss_t* pdu) {
+uint32_t Avtp_Vss_CalcVssPathLength(Avtp_Vss_t* pdu) {
 
     uint8_t* vss_path_ptr = (uint8_t*) pdu + AVTP_VSS_FIXED_HEADER_LEN;
 
     // Check the used VSS addressing mode
     Vss_AddrMode_t addr_mode = Avtp_Vss_GetAddrMode(pdu);
-    uint16_t path_length = 0;
+    uint32_t path_length = 0;
 
     if (addr_mode == VSS_STATIC_ID_MODE) {
         path_length = 4;
